@@ -59,4 +59,65 @@ theorem startCountC2c_ok_of_pos {L r : ℚ} {n : ℕ} (hL : 0 < L) (hn : 1 ≤ n
   · rw [if_neg hb]
     exact ⟨_, rfl⟩
 
+/-- the count validator of the size+total relation, read from the other end of the edge (three or more cells) -/
+theorem countTOK_inv {L s T : ℚ} {n : ℕ} {w1 w2 : Option ℚ} (hn : 3 ≤ n)
+    (h : countTOK T0 L s T n w1 w2 = true) :
+    countTOK T0 L (s * T) (1 / T) n (w1.map (fun w => 1 / w)) (w2.map (fun w => 1 / w)) = true := by
+  unfold countTOK at h ⊢
+  simp only [Bool.and_eq_true, decide_eq_true_eq] at h ⊢
+  obtain ⟨⟨hn1, h1⟩, h2⟩ := h
+  rw [if_neg (by omega)] at h1
+  rw [if_neg (by omega), if_neg (by omega)] at h2
+  have mirror : ∀ (w : ℚ) (m : ℕ), 0 < w → w ^ (m - 1) = T → s * T * gsum (1 / w) m = s * gsum w m := by
+    intro w m hw hpw
+    rw [gsum_eq_geomSum, gsum_eq_geomSum, one_div, ← hpw]
+    have := geomSum_inv (ne_of_gt hw) m
+    calc s * w ^ (m - 1) * geomSum w⁻¹ m = s * (geomSum w⁻¹ m * w ^ (m - 1)) := by ring
+      _ = s * geomSum w m := by rw [this]
+  have pinv : ∀ (w : ℚ) (m : ℕ), 0 < w → w ^ m = T → powOK T0.root (1 / w) (1 / T) m = true := by
+    intro w m hw hpw
+    rw [powOK_iff]
+    refine ⟨by positivity, ?_⟩
+    rw [one_div_pow, hpw]; simp
+  refine ⟨⟨hn1, ?_⟩, ?_⟩
+  · rw [if_neg (by omega)]
+    cases w1 with
+    | none => simp at h1
+    | some w =>
+      simp only [Bool.and_eq_true, decide_eq_true_eq, Option.map_some] at h1 ⊢
+      obtain ⟨hp, hle⟩ := h1
+      obtain ⟨hw, hpw⟩ := powOK_zero hp
+      exact ⟨pinv w _ hw hpw, by rw [mirror w n hw hpw]; exact hle⟩
+  · rw [if_neg (by omega), if_neg (by omega)]
+    cases w2 with
+    | none => simp at h2
+    | some w =>
+      simp only [Bool.and_eq_true, decide_eq_true_eq, Option.map_some] at h2 ⊢
+      obtain ⟨hp, hle⟩ := h2
+      obtain ⟨hw, hpw⟩ := powOK_zero hp
+      have hpw' : w ^ (n - 1 - 1) = T := by rw [show n - 1 - 1 = n - 2 by omega]; exact hpw
+      exact ⟨pinv w _ hw hpw, by rw [mirror w (n - 1) hw hpw']; exact hle⟩
+
+theorem dMin_inv {s T : ℚ} (hT : 0 < T) : dMin (1 / T) (s * T) = dMin T s := by
+  unfold dMin
+  have hT0 : T ≠ 0 := ne_of_gt hT
+  by_cases h1 : T > 1
+  · have : ¬ (1 / T > 1) := by
+      rw [gt_iff_lt, lt_div_iff₀ hT]; linarith
+    rw [if_pos h1, if_neg this]; field_simp
+  · have h1' : T ≤ 1 := not_lt.mp h1
+    rw [if_neg h1]
+    by_cases h2 : 1 / T > 1
+    · rw [if_pos h2]
+    · rw [if_neg h2]
+      have : T = 1 := by
+        rw [gt_iff_lt, lt_div_iff₀ hT] at h2
+        linarith
+      subst this; simp
+
+/-- the solver answers of the reversed size+total chop: same count, the reciprocal root witnesses, and a ratio `c'` -/
+def mirrorOracle (o : Oracle) (c' : ℚ) : Oracle :=
+  { count := o.count, c2c := some c', w1 := o.w1.map (fun w => 1 / w), w2 := o.w2.map (fun w => 1 / w) }
+
+
 end CBV.C03
